@@ -266,6 +266,18 @@ def timers(cx):
     rets = [bi for bi in sorted(cx.prog.A(tk).reach) if tk.body.blocks[bi]["term"]["k"] == "return"]
     allr = all(g.dominated_by_block((rb, "term"), lambda b: b in tb) for rb in rets)
     cx.check(okh and oke and allr, "tick:dispatch", "tick(): leaders run the heartbeat tick, every other role the election tick")
+    # every role/term change restarts both counters and draws a fresh randomized timeout
+    from .vote import reset_fns
+    for k, (rf, _) in reset_fns(cx).items():
+        g = cx.pg(rf)
+        rets = [bi for bi in sorted(cx.prog.A(rf).reach) if rf.body.blocks[bi]["term"]["k"] == "return"]
+        for fk, what in (("RaftCore.election_elapsed", "election"), ("RaftCore.heartbeat_elapsed", "heartbeat")):
+            zs = {w.block for w in cx.prog.writes.get(fk, []) if w.fn is rf and "stmt" in w.data and write_value(cx, w) == ("int", 0)}
+            ok = bool(zs) and all(g.dominated_by_block((rb, "term"), lambda b: b in zs) for rb in rets)
+            cx.check(ok, fn_name(rf) + ":" + what + "-restart", "%s restarts the %s counter on every path" % (fn_name(rf), what))
+        rb_ = {c.block for sp, c in cx.prog.calls_out[rf.key] if c.kind == "call" and "RaftCore.randomized_election_timeout" in cx.prog.modset_short(sp)}
+        ok = bool(rb_) and all(g.dominated_by_block((rb, "term"), lambda b: b in rb_) for rb in rets)
+        cx.check(ok, fn_name(rf) + ":randomize", "%s draws a fresh randomized election timeout on every path" % fn_name(rf))
 
 
 def _is_payload_sum(cx, e):
